@@ -1,2 +1,82 @@
-From MPV Require Import Model.Coll.
-Theorem C06_placeholder : True. Proof. exact I. Qed.
+(* C06 — numbered collections: unique numbers, current look-ups, fresh requested numbers,
+   atomic failures.  Headline theorems only; the proofs are in Proofs/CollProofs.v. *)
+From Coq Require Import List ZArith Bool.
+From MPV Require Import Model.Coll Proofs.CollProofs.
+Import ListNotations.
+Open Scope Z_scope.
+
+(* The invariant and the premises it is proved under (definitions in Proofs/CollProofs.v):
+
+   Inv s    := NoDup (numbers_of s)
+               /\ (forall n o, In (n, o) (cache s) -> In o (objs s))
+               /\ (clink s = true -> forall o, In o (objs s) -> olink s o = true)
+   op_ok s o := match o with
+                | SetNum x n => clink s = true \/ ~ In x (objs s) \/ ~ In n (numbers_of s)
+                | _ => True end
+   ops_ok s ops := op_ok holds for every operation in the state it is applied to *)
+
+(* 1. the constructor establishes the invariant *)
+Theorem C06_init_inv :
+  forall l numf lk ty cl s,
+    init l numf lk ty cl = Some s ->
+    (cl = true -> forall o, In o l -> lk o = true) ->
+    Inv s.
+Proof. exact init_inv. Qed.
+Print Assumptions C06_init_inv.
+
+(* 2. every operation preserves it *)
+Theorem C06_step_inv : forall s o, Inv s -> op_ok s o -> Inv (fst (step s o)).
+Proof. exact step_inv. Qed.
+Print Assumptions C06_step_inv.
+
+(* 3. hence it holds in every reachable state *)
+Theorem C06_inv : forall ops s, Inv s -> ops_ok s ops -> Inv (run s ops).
+Proof. exact run_inv. Qed.
+Print Assumptions C06_inv.
+
+(* 4. look-ups are current: get returns exactly the member whose number is n now *)
+Theorem C06_lookup :
+  forall s n o, Inv s -> (snd (get s n) = Some o <-> In o (objs s) /\ num s o = n).
+Proof. exact get_lookup. Qed.
+Print Assumptions C06_lookup.
+
+Theorem C06_lookup_none :
+  forall s n, Inv s -> (snd (get s n) = None <-> ~ In n (numbers_of s)).
+Proof. exact get_lookup_none. Qed.
+Print Assumptions C06_lookup_none.
+
+(* 5. requested numbers are free *)
+Theorem C06_request_fresh :
+  forall s a k s' n, request_number s a k = (s', RNum n) -> ~ In n (numbers_of s').
+Proof. exact request_fresh. Qed.
+Print Assumptions C06_request_fresh.
+
+Theorem C06_next_fresh :
+  forall s k s' n, next_number s k = (s', RNum n) -> ~ In n (numbers_of s').
+Proof. exact next_fresh. Qed.
+Print Assumptions C06_next_fresh.
+
+(* 6. request_number terminates: the model's fuel |objs|+1 is never exhausted *)
+Theorem C06_request_terminates :
+  forall s a k, k <> 0 -> forall s', request_number s a k <> (s', RErr OutOfFuel).
+Proof. exact request_terminates. Qed.
+Print Assumptions C06_request_terminates.
+
+(* 7. a NumberConflictError leaves members, numbers and links unchanged *)
+Theorem C06_conflict_atomic :
+  forall s o s', Inv s -> step s o = (s', RErr NumberConflict) ->
+    objs s' = objs s /\ (forall x, num s' x = num s x) /\ (forall x, olink s' x = olink s x).
+Proof. exact conflict_atomic. Qed.
+Print Assumptions C06_conflict_atomic.
+
+(* 8. so does a TypeError *)
+Theorem C06_type_error_atomic :
+  forall s o s', step s o = (s', RErr TypeErr) ->
+    objs s' = objs s /\ (forall x, num s' x = num s x) /\ (forall x, olink s' x = olink s x).
+Proof. exact type_error_atomic. Qed.
+Print Assumptions C06_type_error_atomic.
+
+(* 9. the invariant is not vacuous *)
+Example C06_inv_nonvacuous : exists s, Inv s /\ objs s <> [] /\ cache s <> [].
+Proof. exact inv_nonvacuous. Qed.
+Print Assumptions C06_inv_nonvacuous.
